@@ -1,3 +1,449 @@
 import BiotiteModel.Model.C14
+import Mathlib.Tactic.Linarith
+import Mathlib.Tactic.Ring
+import Mathlib.Tactic.FieldSimp
+import Mathlib.Tactic.Positivity
+/-! Helper lemmas for C14 (kept apart from the property theorems in `Props/C14.lean`).
+Mathlib is used only for tactics over ℚ (`linarith`, `nlinarith`, `field_simp`, `ring`). -/
 namespace BiotiteModel.C14
+
+theorem truncQ_of_nonneg (q : Rat) (h : 0 ≤ q) : truncQ q = q.floor := by
+  have hn : 0 ≤ q.num := Rat.num_nonneg.mpr h
+  rw [Rat.floor_def, truncQ]
+  exact Int.tdiv_eq_ediv_of_nonneg hn
+
+theorem truncQ_neg (q : Rat) : truncQ (-q) = - truncQ q := by
+  simp [truncQ, Int.neg_tdiv]
+
+theorem truncQ_of_nonpos (q : Rat) (h : q ≤ 0) : truncQ q = q.ceil := by
+  have : truncQ q = - truncQ (-q) := by rw [truncQ_neg]; omega
+  rw [this, truncQ_of_nonneg (-q) (by linarith), Rat.ceil_eq_neg_floor_neg]
+
+/-- Truncation is within one of the argument, on the side of zero. -/
+theorem trunc_window (u v : Rat) (R : Int) (hu : 0 ≤ u) (h1 : u - v ≤ R) (h2 : v - u ≤ R) :
+    truncQ u - truncQ v ≤ R ∧ truncQ v - truncQ u ≤ R := by
+  rw [truncQ_of_nonneg u hu]
+  have hR : (0 : Rat) ≤ R := by linarith
+  have hR' : 0 ≤ R := by exact_mod_cast hR
+  have fu := Rat.floor_le u
+  have fu1 := Rat.lt_floor_add_one u
+  have fu0 : 0 ≤ u.floor := Rat.le_floor_iff.mpr (by simpa using hu)
+  by_cases hv : 0 ≤ v
+  · rw [truncQ_of_nonneg v hv]
+    have fv := Rat.floor_le v
+    have fv1 := Rat.lt_floor_add_one v
+    push_cast at fu1 fv1
+    constructor
+    · have : u.floor < v.floor + R + 1 := Rat.floor_lt_iff.mpr (by push_cast; linarith)
+      omega
+    · have : v.floor < u.floor + R + 1 := Rat.floor_lt_iff.mpr (by push_cast; linarith)
+      omega
+  · have hv' : v ≤ 0 := by linarith
+    rw [truncQ_of_nonpos v hv']
+    have c1 : v ≤ (v.ceil : Rat) := Rat.le_ceil
+    have c2 : v.ceil ≤ 0 := Rat.ceil_le_iff.mpr (by simpa using hv')
+    constructor
+    · have : ((u.floor - v.ceil : Int) : Rat) ≤ (R : Rat) := by push_cast; linarith
+      exact_mod_cast this
+    · omega
+
+/-- One axis of `C14_window_sufficient`. -/
+theorem window1 (mn cs a q r : Rat) (hcs : 0 < cs) (ha : mn ≤ a) (h1 : a - q ≤ r) (h2 : q - a ≤ r) :
+    cellIdx1 mn cs a - cellIdx1 mn cs q ≤ (r / cs).ceil ∧
+    cellIdx1 mn cs q - cellIdx1 mn cs a ≤ (r / cs).ceil := by
+  unfold cellIdx1
+  have hc : r / cs ≤ ((r / cs).ceil : Rat) := Rat.le_ceil
+  apply trunc_window
+  · exact div_nonneg (by linarith) hcs.le
+  · have : (a - mn) / cs - (q - mn) / cs = (a - q) / cs := by field_simp; ring
+    rw [this]; exact le_trans (div_le_div_of_nonneg_right h1 hcs.le) hc
+  · have : (q - mn) / cs - (a - mn) / cs = (q - a) / cs := by field_simp; ring
+    rw [this]; exact le_trans (div_le_div_of_nonneg_right h2 hcs.le) hc
+
+/-- Same with an integer cell radius: Chebyshev distance `≤ R * cs`. -/
+theorem window1_cells (mn cs a q : Rat) (R : Int) (hcs : 0 < cs) (ha : mn ≤ a)
+    (h1 : a - q ≤ R * cs) (h2 : q - a ≤ R * cs) :
+    cellIdx1 mn cs a - cellIdx1 mn cs q ≤ R ∧ cellIdx1 mn cs q - cellIdx1 mn cs a ≤ R := by
+  unfold cellIdx1
+  apply trunc_window
+  · exact div_nonneg (by linarith) hcs.le
+  · have : (a - mn) / cs - (q - mn) / cs = (a - q) / cs := by field_simp; ring
+    rw [this, div_le_iff₀ hcs]; exact h1
+  · have : (q - mn) / cs - (a - mn) / cs = (q - a) / cs := by field_simp; ring
+    rw [this, div_le_iff₀ hcs]; exact h2
+
+/-- Every atom between min and max gets a cell index inside the grid (one axis). -/
+theorem grid1 (mn mx cs a : Rat) (hcs : 0 < cs) (h1 : mn ≤ a) (h2 : a ≤ mx) :
+    0 ≤ cellIdx1 mn cs a ∧ cellIdx1 mn cs a < truncQ ((mx - mn) / cs + 1) := by
+  unfold cellIdx1
+  have hu : 0 ≤ (a - mn) / cs := div_nonneg (by linarith) hcs.le
+  have hw : (a - mn) / cs ≤ (mx - mn) / cs := div_le_div_of_nonneg_right (by linarith) hcs.le
+  rw [truncQ_of_nonneg _ hu, truncQ_of_nonneg _ (by linarith)]
+  constructor
+  · exact Rat.le_floor_iff.mpr (by simpa using hu)
+  · have := Rat.floor_monotone hw
+    have h3 : ((mx - mn) / cs + 1).floor = ((mx - mn) / cs).floor + 1 := Rat.floor_add_one
+    omega
+
+/-! ## list level -/
+
+theorem mem_ite_nil {α : Type} (p : Prop) [Decidable p] (l : List α) (x : α) :
+    x ∈ (if p then l else []) ↔ p ∧ x ∈ l := by
+  split <;> simp [*]
+
+theorem mem_irange (lo hi x : Int) : x ∈ CL.irange lo hi ↔ lo ≤ x ∧ x < hi := by
+  simp only [CL.irange, List.mem_map, List.mem_range]
+  constructor
+  · rintro ⟨d, hd, rfl⟩; omega
+  · rintro ⟨h1, h2⟩
+    exact ⟨(x - lo).toNat, by omega, by omega⟩
+
+theorem mem_cellContent (c : CL) (cell : I3) (pt : V3 × Nat) :
+    pt ∈ c.cellContent cell ↔ pt ∈ c.coord.zipIdx ∧ c.selected pt.2 = true ∧ c.cellOf pt.1 = cell := by
+  simp [CL.cellContent, List.mem_filter]
+
+theorem mem_scanFast (c : CL) (q : V3) (cr : Int) (pt : V3 × Nat) :
+    pt ∈ c.scanFast q cr ↔ pt ∈ c.coord.zipIdx ∧ c.selected pt.2 = true ∧
+      CL.inGrid c.dims (c.cellOf pt.1) = true ∧ CL.inWindow (c.cellOf q) (c.cellOf pt.1) cr = true := by
+  simp [CL.scanFast, List.mem_filter, and_assoc]
+
+/-- The literal window scan of `_find_adjacent_atoms` visits exactly the selected atoms whose cell
+lies in the window and in the grid. -/
+theorem mem_scan_iff (c : CL) (q : V3) (cr : Int) (pt : V3 × Nat) :
+    pt ∈ c.scan q cr ↔ pt ∈ c.scanFast q cr := by
+  rw [mem_scanFast]
+  simp only [CL.scan, List.mem_flatMap, mem_irange, mem_ite_nil, mem_cellContent]
+  constructor
+  · rintro ⟨ai, hai, hi, aj, haj, hj, ak, hak, hk, hz, hs, hc⟩
+    refine ⟨hz, hs, ?_, ?_⟩
+    · rw [hc]; simp [CL.inGrid]; omega
+    · rw [hc]; simp [CL.inWindow]; omega
+  · rintro ⟨hz, hs, hg, hw⟩
+    simp [CL.inGrid] at hg
+    simp [CL.inWindow] at hw
+    refine ⟨(c.cellOf pt.1).i, by omega, by omega, (c.cellOf pt.1).j, by omega, by omega,
+      (c.cellOf pt.1).k, by omega, by omega, hz, hs, rfl⟩
+
+
+/-! ## the cell-list invariant -/
+
+/-- What `__cinit__` establishes: positive cell size and `min ≤ every coordinate ≤ max`. -/
+structure CL.WF (c : CL) : Prop where
+  cs_pos : 0 < c.cs
+  lo : ∀ p ∈ c.coord, c.mn.x ≤ p.x ∧ c.mn.y ≤ p.y ∧ c.mn.z ≤ p.z
+  hi : ∀ p ∈ c.coord, p.x ≤ c.mx.x ∧ p.y ≤ c.mx.y ∧ p.z ≤ c.mx.z
+
+theorem inGrid_of_wf (c : CL) (h : c.WF) (p : V3) (hp : p ∈ c.coord) :
+    CL.inGrid c.dims (c.cellOf p) = true := by
+  obtain ⟨l1, l2, l3⟩ := h.lo p hp
+  obtain ⟨u1, u2, u3⟩ := h.hi p hp
+  have g1 := grid1 c.mn.x c.mx.x c.cs p.x h.cs_pos l1 u1
+  have g2 := grid1 c.mn.y c.mx.y c.cs p.y h.cs_pos l2 u2
+  have g3 := grid1 c.mn.z c.mx.z c.cs p.z h.cs_pos l3 u3
+  unfold CL.inGrid CL.dims CL.cellOf cellIdx
+  exact decide_eq_true ⟨g1.1, g1.2, g2.1, g2.2, g3.1, g3.2⟩
+
+/-- Chebyshev distance `≤ r` -/
+def near (q p : V3) (r : Rat) : Prop :=
+  (p.x - q.x ≤ r ∧ q.x - p.x ≤ r) ∧ (p.y - q.y ≤ r ∧ q.y - p.y ≤ r) ∧ (p.z - q.z ≤ r ∧ q.z - p.z ≤ r)
+
+theorem inWindow_of_near (c : CL) (h : c.WF) (p : V3) (hp : p ∈ c.coord) (q : V3) (r : Rat)
+    (hn : near q p r) : CL.inWindow (c.cellOf q) (c.cellOf p) (c.cellRadius r) = true := by
+  obtain ⟨l1, l2, l3⟩ := h.lo p hp
+  obtain ⟨⟨a1, a2⟩, ⟨b1, b2⟩, ⟨c1, c2⟩⟩ := hn
+  have w1 := window1 c.mn.x c.cs p.x q.x r h.cs_pos l1 a1 a2
+  have w2 := window1 c.mn.y c.cs p.y q.y r h.cs_pos l2 b1 b2
+  have w3 := window1 c.mn.z c.cs p.z q.z r h.cs_pos l3 c1 c2
+  unfold CL.inWindow CL.cellOf cellIdx CL.cellRadius
+  apply decide_eq_true
+  dsimp only
+  omega
+
+theorem inWindow_of_near_cells (c : CL) (h : c.WF) (p : V3) (hp : p ∈ c.coord) (q : V3) (R : Int)
+    (hn : near q p (R * c.cs)) : CL.inWindow (c.cellOf q) (c.cellOf p) R = true := by
+  obtain ⟨l1, l2, l3⟩ := h.lo p hp
+  obtain ⟨⟨a1, a2⟩, ⟨b1, b2⟩, ⟨c1, c2⟩⟩ := hn
+  have w1 := window1_cells c.mn.x c.cs p.x q.x R h.cs_pos l1 a1 a2
+  have w2 := window1_cells c.mn.y c.cs p.y q.y R h.cs_pos l2 b1 b2
+  have w3 := window1_cells c.mn.z c.cs p.z q.z R h.cs_pos l3 c1 c2
+  unfold CL.inWindow CL.cellOf cellIdx
+  apply decide_eq_true
+  dsimp only
+  omega
+
+theorem near_of_sqDist (q p : V3) (r : Rat) (hr : 0 ≤ r) (h : sqDist q p ≤ r * r) : near q p r := by
+  unfold sqDist at h
+  have hx := mul_self_nonneg (p.x - q.x)
+  have hy := mul_self_nonneg (p.y - q.y)
+  have hz := mul_self_nonneg (p.z - q.z)
+  have key : ∀ d : Rat, d * d ≤ r * r → d ≤ r ∧ -d ≤ r := by
+    intro d hd
+    constructor
+    · by_contra hc; have hc := not_le.mp hc; nlinarith
+    · by_contra hc; have hc := not_le.mp hc; nlinarith
+  have kx := key (p.x - q.x) (by linarith)
+  have ky := key (p.y - q.y) (by linarith)
+  have kz := key (p.z - q.z) (by linarith)
+  refine ⟨⟨kx.1, by linarith [kx.2]⟩, ⟨ky.1, by linarith [ky.2]⟩, ⟨kz.1, by linarith [kz.2]⟩⟩
+
+/-- The distance-filtered scan (positions in `_coord`, before `_post_process`). -/
+def CL.rawAtoms (c : CL) (q' : V3) (r : Rat) : List Nat :=
+  ((c.scan q' (c.cellRadius r)).filter fun pt => decide (sqDist q' pt.1 ≤ r * r)).map (·.2)
+
+theorem mem_rawAtoms (c : CL) (h : c.WF) (q' : V3) (r : Rat) (hr : 0 ≤ r) (t : Nat) :
+    t ∈ c.rawAtoms q' r ↔ ∃ p, c.coord[t]? = some p ∧ c.selected t = true ∧ sqDist q' p ≤ r * r := by
+  simp only [CL.rawAtoms, List.mem_map, List.mem_filter, mem_scan_iff, mem_scanFast,
+    List.mem_zipIdx_iff_getElem?, decide_eq_true_eq]
+  constructor
+  · rintro ⟨⟨p, t'⟩, ⟨⟨hz, hs, -, -⟩, hd⟩, rfl⟩
+    exact ⟨p, hz, hs, hd⟩
+  · rintro ⟨p, hz, hs, hd⟩
+    have hp : p ∈ c.coord := List.mem_of_getElem? hz
+    exact ⟨(p, t), ⟨⟨hz, hs, inGrid_of_wf c h p hp,
+      inWindow_of_near c h p hp q' r (near_of_sqDist q' p r hr hd)⟩, hd⟩, rfl⟩
+
+/-- The cell query (positions, before `_post_process`). -/
+theorem mem_rawCells (c : CL) (h : c.WF) (q' : V3) (R : Int) (t : Nat) (p : V3)
+    (hz : c.coord[t]? = some p) (hs : c.selected t = true) (hn : near q' p (R * c.cs)) :
+    t ∈ (c.scan q' R).map (·.2) := by
+  simp only [List.mem_map, mem_scan_iff, mem_scanFast, List.mem_zipIdx_iff_getElem?]
+  have hp : p ∈ c.coord := List.mem_of_getElem? hz
+  exact ⟨(p, t), ⟨hz, hs, inGrid_of_wf c h p hp, inWindow_of_near_cells c h p hp q' R hn⟩, rfl⟩
+
+theorem mem_rawCells_sound (c : CL) (q' : V3) (R : Int) (t : Nat) (ht : t ∈ (c.scan q' R).map (·.2)) :
+    ∃ p, c.coord[t]? = some p ∧ c.selected t = true := by
+  simp only [List.mem_map, mem_scan_iff, mem_scanFast, List.mem_zipIdx_iff_getElem?] at ht
+  obtain ⟨⟨p, t'⟩, ⟨hz, hs, -, -⟩, rfl⟩ := ht
+  exact ⟨p, hz, hs⟩
+
+theorem atomsOne_eq (c : CL) (q : V3) (r : Rat) : c.atomsOne q r = c.post (c.rawAtoms (c.prepQ q) r) := rfl
+
+theorem mem_asMask (c : CL) (idx : List Nat) (t : Nat) :
+    (c.asMask idx)[t]? = some true ↔ t < c.n ∧ t ∈ idx := by
+  unfold CL.asMask
+  rw [List.getElem?_map]
+  by_cases h : t < c.n
+  · rw [List.getElem?_range h]; simp [h]
+  · rw [List.getElem?_eq_none (by simp; omega)]; simp [h]
+
+
+/-! ## the constructor establishes the invariant -/
+
+theorem lmin_le (m : Rat) (l : List Rat) : lmin m l ≤ m ∧ ∀ x ∈ l, lmin m l ≤ x := by
+  induction l generalizing m with
+  | nil => simp [lmin]
+  | cons a l ih =>
+    simp only [lmin]
+    obtain ⟨h1, h2⟩ := ih (min m a)
+    refine ⟨le_trans h1 (min_le_left _ _), ?_⟩
+    intro x hx; rcases List.mem_cons.mp hx with rfl | hx
+    · exact le_trans h1 (min_le_right _ _)
+    · exact h2 x hx
+
+theorem le_lmax (m : Rat) (l : List Rat) : m ≤ lmax m l ∧ ∀ x ∈ l, x ≤ lmax m l := by
+  induction l generalizing m with
+  | nil => simp [lmax]
+  | cons a l ih =>
+    simp only [lmax]
+    obtain ⟨h1, h2⟩ := ih (max m a)
+    refine ⟨le_trans (le_max_left _ _) h1, ?_⟩
+    intro x hx; rcases List.mem_cons.mp hx with rfl | hx
+    · exact le_trans (le_max_right _ _) h1
+    · exact h2 x hx
+
+theorem bounds_lo (f : V3 → Rat) (p : V3) (ps : List V3) (q : V3) (hq : q ∈ p :: ps) :
+    lmin (f p) (ps.map f) ≤ f q := by
+  rcases List.mem_cons.mp hq with rfl | hq
+  · exact (lmin_le _ _).1
+  · exact (lmin_le _ _).2 _ (List.mem_map_of_mem hq)
+
+theorem bounds_hi (f : V3 → Rat) (p : V3) (ps : List V3) (q : V3) (hq : q ∈ p :: ps) :
+    f q ≤ lmax (f p) (ps.map f) := by
+  rcases List.mem_cons.mp hq with rfl | hq
+  · exact (le_lmax _ _).1
+  · exact (le_lmax _ _).2 _ (List.mem_map_of_mem hq)
+
+theorem mk_ok (coords : List V3) (cs : Rat) (box : Option V3) (sel : Option (List Bool)) (c : CL)
+    (h : mk coords cs box sel = some (.ok c)) :
+    c.WF ∧ c.coord = allCoords coords box ∧ c.n = coords.length ∧ c.box = box ∧ c.cs = cs ∧
+    selError coords sel = none ∧ boxOk box = true ∧
+    c.sel = selMask sel coords.length := by
+  unfold mk at h
+  split at h
+  · simp at h
+  · rename_i hsel
+    split at h
+    · simp at h
+    · rename_i hbox
+      split at h
+      · simp at h
+      · rename_i hcs
+        split at h
+        · simp at h
+        · rename_i p ps hall
+          simp only [Option.some.injEq, Except.ok.injEq] at h
+          subst h
+          refine ⟨⟨by simp only [build]; linarith, ?_, ?_⟩, rfl, rfl, rfl, rfl, hsel, by simpa using hbox, rfl⟩
+          · intro q hq
+            have hq' : q ∈ p :: ps := by simpa [build, hall] using hq
+            exact ⟨bounds_lo (·.x) p ps q hq', bounds_lo (·.y) p ps q hq', bounds_lo (·.z) p ps q hq'⟩
+          · intro q hq
+            have hq' : q ∈ p :: ps := by simpa [build, hall] using hq
+            exact ⟨bounds_hi (·.x) p ps q hq', bounds_hi (·.y) p ps q hq', bounds_hi (·.z) p ps q hq'⟩
+
+
+/-! ## batches, scalar vs per-query radii, adjacency plumbing -/
+
+theorem atomsBatch_rows (c : CL) (qs : List V3) (rad : Rad Rat) (rows : List (List Nat))
+    (h : c.atomsBatch qs rad = some (.ok rows)) :
+    rows = (qs.zip (rad.expand qs.length)).map (fun qr => c.atomsOne qr.1 qr.2) := by
+  unfold CL.atomsBatch CL.atomsBatchWith at h
+  split at h
+  · rename_i he
+    have : qs = [] := by simpa using he
+    subst this; simp at h; simp [h]
+  · split at h
+    · simp at h
+    · simp only at h
+      split at h
+      · simp at h
+      · split at h
+        · simp only [Option.some.injEq, Except.ok.injEq] at h
+          rw [← h]; rfl
+        · simp at h
+        · simp at h
+
+theorem cellsBatch_rows (c : CL) (qs : List V3) (rad : Rad Int) (rows : List (List Nat))
+    (h : c.cellsBatch qs rad = some (.ok rows)) :
+    rows = (qs.zip (rad.expand qs.length)).map (fun qr => c.cellsOne qr.1 qr.2) := by
+  unfold CL.cellsBatch CL.cellsBatchWith at h
+  split at h
+  · rename_i he
+    have : qs = [] := by simpa using he
+    subst this; simp at h; simp [h]
+  · split at h
+    · simp at h
+    · simp only at h
+      split at h
+      · simp at h
+      · split at h
+        · simp only [Option.some.injEq, Except.ok.injEq] at h
+          rw [← h]; rfl
+        · simp at h
+        · simp at h
+
+/-- A successful batch had non-negative radii (`_prepare_vectorization` rejects the others). -/
+theorem atomsBatch_nonneg (c : CL) (qs : List V3) (rad : Rad Rat) (rows : List (List Nat))
+    (hq : qs ≠ []) (h : c.atomsBatch qs rad = some (.ok rows)) :
+    ∀ r ∈ rad.expand qs.length, 0 ≤ r := by
+  unfold CL.atomsBatch CL.atomsBatchWith at h
+  split at h
+  · rename_i he; simp at he; exact absurd he hq
+  · split at h
+    · simp at h
+    · rename_i hc
+      intro r hr
+      cases rad with
+      | scalar r0 =>
+        simp only [Rad.expand, List.mem_replicate] at hr
+        simp only [Rad.check] at hc
+        split at hc
+        · simp at hc
+        · rename_i hn; rw [hr.2]; simpa using hn
+      | multi rs =>
+        simp only [Rad.expand] at hr
+        simp only [Rad.check] at hc
+        split at hc
+        · simp at hc
+        · split at hc
+          · simp at hc
+          · rename_i hn
+            simp only [List.any_eq_true, decide_eq_true_eq, not_exists, not_and, not_lt] at hn
+            exact hn r hr
+
+theorem atomsBatch_ok (c : CL) (qs : List V3) (rad : Rad Rat) (hq : qs ≠ [])
+    (hchk : rad.check qs.length (fun r => decide (r < 0)) = .ok ())
+    (hsmall : ∀ r ∈ rad.expand qs.length, c.cellRadius r < 2 ^ 31)
+    (hfit : c.guard (maxRadius ((rad.expand qs.length).map c.cellRadius)) = .fits) :
+    c.atomsBatch qs rad =
+      some (.ok ((qs.zip (rad.expand qs.length)).map fun qr => c.atomsOne qr.1 qr.2)) := by
+  unfold CL.atomsBatch CL.atomsBatchWith
+  have he : qs.isEmpty = false := by simpa using hq
+  have hany : (List.map c.cellRadius (rad.expand qs.length)).any (fun r => decide (r ≥ 2 ^ 31)) = false := by
+    simp only [List.any_eq_false, List.mem_map, decide_eq_true_eq, not_le, forall_exists_index, and_imp,
+      forall_apply_eq_imp_iff₂]
+    exact hsmall
+  simp only [he, hchk, hany, hfit]
+  rfl
+
+theorem scalar_eq_multi (c : CL) (qs : List V3) (r : Rat) :
+    c.atomsBatch qs (.scalar r) = c.atomsBatch qs (.multi (List.replicate qs.length r)) := by
+  unfold CL.atomsBatch CL.atomsBatchWith
+  by_cases he : qs.isEmpty = true
+  · simp [he]
+  · have hne : qs ≠ [] := by simpa using he
+    have hpos : 0 < qs.length := List.length_pos_iff.mpr hne
+    have hchk : (Rad.multi (List.replicate qs.length r)).check qs.length (fun r => decide (r < 0)) =
+        (Rad.scalar r).check qs.length (fun r => decide (r < 0)) := by
+      simp only [Rad.check, List.length_replicate, ne_eq, not_true_eq_false, if_false]
+      by_cases hr : r < 0
+      · simp [hr, List.any_replicate, hpos.ne']
+      · simp [hr, List.any_replicate]
+    simp only [hchk, Rad.expand]
+    rfl
+
+theorem zip_replicate_map {β : Type} (f : V3 → Rat → β) (qs : List V3) (r : Rat) :
+    ((qs.zip (List.replicate qs.length r)).map fun qr => f qr.1 qr.2) = qs.map (f · r) := by
+  induction qs with
+  | nil => rfl
+  | cons a l ih => simp [List.replicate_succ, ih]
+
+theorem scatter_spec (g : V3 → List Nat) : ∀ (s : List Bool) (b : List V3), b.length = s.length →
+    CL.scatter s (((b.zip s).filterMap fun ps => if ps.2 then some ps.1 else none).map g) =
+      (b.zip s).map (fun ps => if ps.2 then g ps.1 else []) := by
+  intro s
+  induction s with
+  | nil => intro b _; cases b <;> simp [CL.scatter]
+  | cons x s ih =>
+    intro b hb
+    cases b with
+    | nil => simp at hb
+    | cons p b =>
+      have hb' : b.length = s.length := by simpa using hb
+      cases x <;> simp [CL.scatter, ih b hb']
+
+/-! ## periodic helpers -/
+
+theorem wrap1_eq (L x : Rat) (hL : 0 < L) : wrap1 L x = x - ((x / L).floor : Int) * L := by
+  unfold wrap1
+  have : L ≠ 0 := ne_of_gt hL
+  field_simp
+
+theorem wrap1_range (L x : Rat) (hL : 0 < L) : 0 ≤ wrap1 L x ∧ wrap1 L x < L := by
+  unfold wrap1
+  have h1 := Rat.floor_le (x / L)
+  have h2 := Rat.lt_floor_add_one (x / L)
+  push_cast at h2
+  constructor
+  · exact mul_nonneg (by linarith) hL.le
+  · calc (x / L - ((x / L).floor : Int)) * L < 1 * L := by
+          apply mul_lt_mul_of_pos_right _ hL; linarith
+      _ = L := one_mul L
+
+theorem min_image_1d (L d : Rat) (hL : 0 < L) (h1 : -L < d) (h2 : d < L) (m : Int) :
+    ∃ s : Int, (s = -1 ∨ s = 0 ∨ s = 1) ∧ (d + s * L) * (d + s * L) ≤ (d + m * L) * (d + m * L) := by
+  by_cases hm : m = -1 ∨ m = 0 ∨ m = 1
+  · exact ⟨m, hm, le_refl _⟩
+  · refine ⟨0, Or.inr (Or.inl rfl), ?_⟩
+    have hm' : m ≤ -2 ∨ 2 ≤ m := by omega
+    rcases hm' with hm' | hm'
+    · have : (m : Rat) ≤ -2 := by exact_mod_cast hm'
+      have hx : d + m * L ≤ -L := by nlinarith
+      push_cast
+      nlinarith
+    · have : (2 : Rat) ≤ m := by exact_mod_cast hm'
+      have hx : L ≤ d + m * L := by nlinarith
+      push_cast
+      nlinarith
+
 end BiotiteModel.C14
